@@ -8,7 +8,7 @@ def run(chk):
         "Decides absence of specific classes of panic; it does not prove the ~500 remaining panic-capable sites (indexing, unwrap on internal "
         "invariants, third-party code) safe. R04a: no coercion result on a run-time value is unwrapped in resolve-reachable stdlib code. R04b: no result "
         "of a `dyn Target` call is unwrapped. R04c: every keyword compile() reads is declared (a mismatch is the 'invalid function signature' panic). "
-        "R04e: no overflow-capable negation / iN::abs / iN::pow of a run-time signed integer. R04f: no unguarded sign-losing cast feeding a count/index.")
+        "R04e: no overflow-capable negation / iN::abs / iN::pow of a run-time signed integer. R04f: no unguarded sign-losing cast feeding a count/index. R04g: no str slice/index bound computed from a character count. R04h: divisors and chunk/window/step sizes are constants or compared against zero.")
     chk.assumptions += ["builds with overflow checks (the test profile) panic on arithmetic overflow; release builds wrap — the rule treats both as defects"]
     M = sr.function_model(chk.facts)
     sr.rule_coercion_unwrapped(chk, "R04a", M)
@@ -17,3 +17,5 @@ def run(chk):
     sr.rule_keyword_agreement(chk, "R04c", M)
     sr.rule_negation_overflow(chk, "R04e")
     sr.rule_guarded_casts(chk, "R04f")
+    sr.rule_char_count_as_byte_index(chk, "R04g")
+    sr.rule_zero_intolerant(chk, "R04h")
